@@ -161,6 +161,55 @@ def main():
         raise ValueError("is_in and child_state disagree about restoring state_name")
     g.attempt("queryRestoresName", True, query_restores)
 
+    # ---- LockingDeque algorithm ---------------------------------------------
+    def ld_alg():
+        LDq = find_class(ao, "LockingDeque")
+        app, appl = find_func(LDq, "append"), find_func(LDq, "appendleft")
+        app_src, appl_src = unparse(app), unparse(appl)
+
+        def loops(fn):
+            return [n for n in ast.walk(fn) if isinstance(n, ast.While)]
+        legacy = ("self.locking_queue.full() is False" in app_src and "self.locking_queue.put('ready')" in app_src
+                  and "self.locking_queue.full() is False" in appl_src
+                  and all(isinstance(w.test, ast.Compare) and isinstance(w.test.ops[0], ast.NotEq) for w in loops(app) + loops(appl))
+                  and len(loops(app)) == 1 and len(loops(appl)) == 1)
+        if legacy:
+            return "legacy"
+        try:
+            sig = find_func(LDq, "__signal")
+        except KeyError:
+            raise ValueError("LockingDeque.append is neither the legacy nor the token-after algorithm (no __signal helper)")
+        sig_src = unparse(sig)
+        ws = loops(sig)
+        ok = (len(ws) == 1 and isinstance(ws[0].test, ast.Compare) and isinstance(ws[0].test.ops[0], ast.Lt)
+              and unparse(ws[0].test.left) == "self.locking_queue.qsize()"
+              and unparse(ws[0].test.comparators[0]) == "len(self.deque)"
+              and sig_src.count("put_nowait('ready')") == 2 and "self.locking_queue.put('ready')" not in sig_src
+              and "except Full" in sig_src
+              and isinstance(sig.body[0], ast.Try) and "put_nowait" in unparse(sig.body[0].body[0])
+              and len(loops(app)) == 0 and len(loops(appl)) == 0)
+        # append: if len(self.deque) < self.deque.maxlen: append else: rotate(1); append ; then __signal()
+        body = [s for s in app.body if not isinstance(s, ast.Expr) or not isinstance(getattr(s, "value", None), ast.Constant)]
+        ok = ok and len(body) == 2 and isinstance(body[0], ast.If) \
+            and unparse(body[0].test) == "len(self.deque) < self.deque.maxlen" \
+            and [unparse(x) for x in body[0].body] == ["self.deque.append(item)"] \
+            and [unparse(x) for x in body[0].orelse] == ["self.deque.rotate(1)", "self.deque.append(item)"] \
+            and unparse(body[1]) == "self.__signal()"
+        bodyl = [unparse(x) for x in appl.body]
+        ok = ok and bodyl == ["self.deque.appendleft(item)", "self.__signal()"]
+        if ok:
+            return "tokenAfter"
+        raise ValueError("LockingDeque.append/appendleft/__signal do not match a modelled algorithm")
+    g.attempt("ldAlg", "tokenAfter", ld_alg)
+
+    def ld_caps():
+        LDq = find_class(ao, "LockingDeque")
+        src = unparse(find_func(LDq, "__init__"))
+        if "deque(maxlen=HsmWithQueues.QUEUE_SIZE)" in src and "Queue(maxsize=HsmWithQueues.QUEUE_SIZE)" in src:
+            return True
+        raise ValueError("LockingDeque capacities are not both HsmWithQueues.QUEUE_SIZE")
+    g.attempt("ldCapsEqual", True, ld_caps)
+
     # ---- emit -------------------------------------------------------------
     v = g.values
     def b(x):
@@ -170,6 +219,7 @@ def main():
     lines = []
     lines.append("/- GENERATED by harness/gen_constants.py from the current miros source. Do not edit. -/")
     lines.append("import MirosModel.Hsm.Model")
+    lines.append("import MirosModel.Conc.LockingDeque")
     lines.append("namespace Miros.Gen")
     lines.append("def retStatus : List (String × Nat) := " + table(v["retStatus"]))
     lines.append("def signalTable : List (String × Nat) := " + table(v["innerSignals"]))
@@ -178,6 +228,8 @@ def main():
     lines.append("def cfg : Miros.Hsm.Cfg := { resync := %s, drillGuard := %s, initGuard := %s }" % (
         b(v["cfg.resync"]), b(v["cfg.drillGuard"]), b(v["cfg.initGuard"])))
     lines.append("def queryRestoresName : Bool := " + b(v["queryRestoresName"]))
+    lines.append("def ldAlg : Miros.Conc.LD.Alg := .%s" % v["ldAlg"])
+    lines.append("def ldCapsEqual : Bool := " + b(v["ldCapsEqual"]))
     lines.append("end Miros.Gen")
     text = "\n".join(lines) + "\n"
     os.makedirs(os.path.dirname(OUT), exist_ok=True)
